@@ -1,9 +1,10 @@
 /- Correspondence driver: one operation per input line, one result per output line. -/
 import SevenZ.Driver.Prim
 import SevenZ.Driver.Header
+import SevenZ.Driver.Path
 open SevenZ.Driver
 
-def handlers : List (String → List String → Option String) := [primHandler, headerHandler]
+def handlers : List (String → List String → Option String) := [primHandler, headerHandler, pathHandler]
 
 def step (line : String) : String :=
   match (line.trimAscii.toString.splitOn " ").filter (· ≠ "") with
